@@ -349,6 +349,52 @@ func ruleKA(c *Checker) {
 			}
 		}
 	}
+	// The ping timer measures how long the *peer* has been silent: it is restarted by inbound traffic
+	// (receive loop, KA-3) and by its own firing (the arming sequence of a ping leg) - never by what
+	// this side sends. A Reset in the send goroutine outside a ping leg (after every data packet,
+	// say) means that an application that keeps sending never pings and never notices a dead peer
+	// until its window is full.
+	for _, fn := range w.Funcs {
+		if w.pkgShort(fn) != targetGBN || fn == rl || (rl != nil && fn.Parent() == rl) {
+			continue
+		}
+		top := fn
+		for top.Parent() != nil {
+			top = top.Parent()
+		}
+		if top == rl || top == start || top == gclose {
+			continue
+		}
+		for _, m := range []string{"Reset", "ResetWithInterval"} {
+			for _, ci := range callsOnField(fn, fPing, m) {
+				okk := false
+				for r := range resumeAllowed {
+					if !resumeAllowed[r] || r.Parent() != fn {
+						continue
+					}
+					a, b := ssa.Instruction(ci), ssa.Instruction(r)
+					if instrDominates(b, a) {
+						a, b = b, a
+					} else if !instrDominates(a, b) {
+						continue
+					}
+					straight := true
+					for _, b2 := range fn.Blocks {
+						for _, in := range b2.Instrs {
+							if sel, isSel := in.(*ssa.Select); isSel && sel.Blocking && instrDominates(a, sel) && instrDominates(sel, b) {
+								straight = false
+							}
+						}
+					}
+					if straight {
+						okk = true
+					}
+				}
+				c.decide(okk, "KA-2", "pingTicker."+m+"|"+fnName(fn), instrPos(ci), "part of the arming sequence of a ping leg (next to pongTicker.Resume)",
+					"the ping timer is restarted by the sending side outside a ping leg: outbound traffic postpones the ping, so a silent peer is not probed (and not detected) while the application keeps sending")
+			}
+		}
+	}
 	// KA-6: who may operate the three timers. Every call of a state-changing timer method on the
 	// connection's ping, pong and resend timers sits in one of the functions (or a closure/helper
 	// called only from them) that the keepalive and resend logic assigns it to:
@@ -638,6 +684,49 @@ func ruleKA(c *Checker) {
 		}
 		c.decide(okk, "KA-5", "mailbox."+side.ctor+"|keepalive enabled", fn.Pos(), "gbn.WithKeepalivePing with positive durations: "+detail,
 			"the mailbox connection does not enable the gbn keepalive: a peer that vanishes is never detected ("+detail+")")
+		// ... and it takes effect: the keepalive option is an element of the argument list of a
+		// gbn.WithTimeoutOptions call, and - because WithTimeoutOptions *replaces* the configured list -
+		// that call is the only one among the constructor's options
+		if wto := w.Func("gbn.WithTimeoutOptions"); wto == nil {
+			c.anchorFail("gbn.WithTimeoutOptions")
+		} else {
+			replaces := true
+			if fTO := w.Field("gbn.config.timeoutOptions"); fTO != nil {
+				for _, st := range w.Stores(fTO) {
+					if top := st.Parent(); top.Parent() == wto || top == wto {
+						if call, ok := st.Val.(*ssa.Call); ok && isBuiltinCall(call, "append") {
+							replaces = false
+						}
+					}
+				}
+			}
+			wtos := findCalls(fn, func(ci ssa.CallInstruction) bool { return ci.Common().StaticCallee() == wto })
+			inList := false
+			for _, ka := range findCalls(fn, func(ci ssa.CallInstruction) bool { return ci.Common().StaticCallee() == withKA }) {
+				kv, _ := ka.(ssa.Value)
+				if kv == nil {
+					continue
+				}
+				for _, ref := range *kv.Referrers() {
+					st, ok := ref.(*ssa.Store)
+					if !ok {
+						continue
+					}
+					ia, ok := st.Addr.(*ssa.IndexAddr)
+					if !ok {
+						continue
+					}
+					for _, tc := range wtos {
+						if sl, ok := tc.Common().Args[0].(*ssa.Slice); ok && sl.X == ia.X {
+							inList = true
+						}
+					}
+				}
+			}
+			okOne := inList && (!replaces || len(wtos) == 1)
+			c.decide(okOne, "KA-5", "mailbox."+side.ctor+"|keepalive option takes effect", fn.Pos(), "WithKeepalivePing is an argument of the single WithTimeoutOptions call",
+				fmt.Sprintf("the keepalive option does not reach the timeout manager (argument of a WithTimeoutOptions call: %v; WithTimeoutOptions calls: %d, each replacing the previous list): the connection runs without keepalive", inList, len(wtos)))
+		}
 		// the options stored in the conn are the ones handed to the gbn constructor, in the constructor and in Refresh
 		for _, f2 := range []*ssa.Function{fn, rf} {
 			okOpt := false
@@ -661,5 +750,5 @@ func ruleKA(c *Checker) {
 		}
 		c.decide(okCopy, "KA-5", "mailbox."+side.refresh+"|options carried over", rf.Pos(), "gbnOptions are copied from the previous connection", "a refreshed connection loses the gbn options (keepalive off after the first reconnect)")
 	}
-	c.floor("KA-5", 8)
+	c.floor("KA-5", 10)
 }
